@@ -181,7 +181,9 @@ ViewsOK(pre, e) ==
                   /\ SeqToSet(F[sn].executable) = {o \in mine(sn) : pre.ord[o].status = "EXECUTABLE"}
                   /\ SeqToSet(F[sn].livestatus) = {o \in mine(sn) : pre.ord[o].status \in {"PENDING", "EXECUTABLE", "CANCELLING", "UPDATING", "REPLACING"}}
                   /\ SeqToSet(F[sn].complete) = {o \in mine(sn) : pre.ord[o].status = "COMPLETE"}
-                  /\ SeqToSet(F[sn].matched) = {o \in mine(sn) : pre.ord[o].m > 0},
+                  /\ SeqToSet(F[sn].matched) = {o \in mine(sn) : pre.ord[o].m > 0}
+                  /\ SeqToSet(F[sn].notonlymatched) = mine(sn)
+                  /\ SeqToSet(F[sn].exec_matched) = {o \in mine(sn) : pre.ord[o].status = "EXECUTABLE" /\ pre.ord[o].m > 0},
                   <<mid, sn, F[sn]>>)
 
 P_C15(pre, e) ==
@@ -395,6 +397,12 @@ P_C06(pre, e) ==
 P_C09(pre, e) ==
     LET post == e.st IN
     /\ Ck("C09", "VoidOnlyOnRemoval", VoidOnlyOnRemoval(pre, e), "")
+    \* the average matched price an order reports (and is settled on) is the average of its - possibly reduced - fills,
+    \* also after further fills arrive
+    /\ \A o \in DOMAIN post.ord :
+          (post.ord[o].type = "LIMIT" /\ post.ord[o].frags # <<>> /\ SumS(post.ord[o].frags) = post.ord[o].m /\ ~WapTie(post.ord[o].frags)) =>
+             Ck("C09", "AverageFollowsFills", post.ord[o].avg = Wap(post.ord[o].frags)[2],
+                <<o, post.ord[o].avg, Wap(post.ord[o].frags)[2], post.ord[o].frags>>)
     /\ (e.ev = "mw" =>
          /\ \A i \in DOMAIN e.a.newly_removed :
               LET sk == e.a.newly_removed[i][1]
@@ -495,6 +503,12 @@ P_C08(pre, e) ==
                                  <<o, x.profit, r, ord.side, ord.frags, x.rstatus, x.mtype, x.ndh, x.ewd>>))
             /\ Ck("C08", "ZeroIfUnmatchedOrRemoved",
                   (ord.m = 0 \/ (x.rstatus = "REMOVED" /\ ~x.lineorder)) => x.profit = 0, <<o, x.profit>>)
+            \* the number of dead-heat winners an order is settled with comes from the closing book: the count of
+            \* WINNER runners when it exceeds the market's number of winners (whether or not the tied runners carry orders)
+            /\ Ck("C08", "DeadHeatCounted",
+                  LET nW == Cardinality({rr \in DOMAIN e.a.rstat : e.a.rstat[rr] = "WINNER"})
+                  IN (ord.inbl /\ e.a.nwin > 0) => x.ndh = (IF nW > e.a.nwin THEN nW ELSE 1),
+                  <<o, x.ndh, e.a.nwin, e.a.rstat>>)
             /\ Ck("C08", "OrdersGetResults",
                   (ord.inbl /\ ord.selk \in DOMAIN e.a.rstat) => x.rstatus = e.a.rstat[ord.selk], <<o, x.rstatus>>)
     /\ \A a \in DOMAIN SS : \A b \in DOMAIN SS :
